@@ -57,6 +57,15 @@ def model_type(em, name, nn):
 
 
 def std_trait_type(em, name, nn):
+    r = std_trait_cxx(em, name, nn)
+    if r is None:
+        return None
+    if r[0] == 'c':
+        return r
+    return em.resolve(r)
+
+
+def std_trait_cxx(em, name, nn):
     """std type-transformation traits that clang leaves sugared below the top level of a type
     (e.g. pointee `remove_reference<const int>::type`).  Standard semantics on parsed type terms (M-traits)."""
     m = re.match(r'^(remove_reference|remove_volatile|remove_const|remove_cv|add_pointer|remove_pointer|add_volatile|'
@@ -128,12 +137,12 @@ def std_trait_type(em, name, nn):
             nm = S_.get(nm, nm if not nm.startswith('unsigned') else None)
         if nm is None:
             raise ExtractError('make_(un)signed of %s' % base[1])
-        return ('c', nm, T.quals_of(t))
+        return ('n', nm, T.quals_of(t))
     elif trait == 'decay':
         r = rmq(T.strip_ref(t), ['const', 'volatile'])
         if r[0] == 'a':
             r = ('p', r[1], frozenset())
-    return em.resolve(r)
+    return r
 
 
 MAP_KEY_BITS = {'unsigned char': 8, 'unsigned short': 16, 'unsigned int': 32, 'unsigned long': 64}
